@@ -41,6 +41,10 @@ def verify_function(prog, spec, con, mode='seq', options=None):
             st.pc.append(Addr.aid(v.x.term()) != 0)
         else:
             env[p['n']] = ('val', v)
+    # parameters renamed since the contracts were written (pure renaming, see check.py): old names are aliases
+    for old_n, new_n in ((getattr(prog, 'renamed_locals', None) or {}).get(con.fn) or {}).items():
+        if old_n not in env and new_n in env:
+            env[old_n] = env[new_n]
     # pre-existing pointers have non-negative ids
     ex.cur_env = env
     ex.init_globals(st)
